@@ -108,7 +108,8 @@ pub fn exec(case: &Value) -> Value {
             }
             Some(t)
         }));
-        if let Ok(Some(text)) = dumped {
+        // (nothing to dump when every rule is disabled: an empty text is not a rule file)
+        if let Ok(Some(text)) = dumped.map(|t| t.filter(|t| !t.is_empty())) {
             let mut c3 = Compiler::new();
             match catch_unwind(AssertUnwindSafe(|| c3.load_rules_from_str(&text).ok().and_then(|_| Engine::try_from(c3).ok()))) {
                 Ok(Some(e)) => reloaded = Some(e),
@@ -128,10 +129,20 @@ pub fn exec(case: &Value) -> Value {
         eng = eng.clone();
     }
     let mut outs = vec![];
+    // the engine as built, never scanned with: a clone of it answers each event alone, and the engine that has seen all
+    // the earlier events must answer the same, to the name of the rule an error mentions
+    let pristine = if n_events <= 64 { Some(eng.clone()) } else { None };
     for ev in case["events"].as_array().cloned().unwrap_or_default() {
         match event_from_json(&ev) {
             Ok(ev) => {
                 let o = scan_outcome(&mut eng, &ev);
+                if let Some(p) = &pristine {
+                    let fresh = scan_outcome(&mut p.clone(), &ev);
+                    if fresh != o {
+                        outs.push(json!({"history-dependent": {"this engine": o, "an engine that has scanned nothing": fresh}}));
+                        continue;
+                    }
+                }
                 if let Some(e2) = reloaded.as_mut() {
                     let o2 = scan_outcome(e2, &ev);
                     // which of several failing rules an error names may follow hash order: compared without it
